@@ -230,7 +230,18 @@ def check_case(case, ctx):
         text = str(robj) if case["style"] == "str" else text_of(r, case["style"], rng)
         text = case["prefix"] + text + case["suffix"]
         sub = {**case, "text": text}
-        st, got = bounded(lambda: ck.Ranking.from_string(text), len(text))
+        if case["seed"] % 4 == 0:
+            # through a file: Ranking.from_file reads the whole file as one ranking text
+            tmpf = os.path.join(os.environ.get("TMPDIR", "/tmp"), f"c18r_{os.getpid()}.txt")
+            with open(tmpf, "w", encoding="utf-8") as f:
+                f.write(text)
+            try:
+                st, got = bounded(lambda: ck.Ranking.from_file(tmpf), len(text))
+            finally:
+                os.remove(tmpf)
+            ctx.count("ranking_from_file")
+        else:
+            st, got = bounded(lambda: ck.Ranking.from_string(text), len(text))
         ctx.count("round_trips")
         ctx.count(f"round_trip:{case['style']}:{'int' if all(isinstance(e, int) for b in r for e in b) else 'str'}")
         if st == "exc":
@@ -265,6 +276,17 @@ def check_case(case, ctx):
                 return
             size = os.path.getsize(path)
             st, back = bounded(lambda: ck.Dataset.from_file(path), size)
+            # the other readers of the same file / folder must agree with from_file
+            others = {}
+            if st == "ok":
+                folder = path + ".d"
+                os.makedirs(folder, exist_ok=True)
+                import shutil
+                shutil.copy(path, os.path.join(folder, "b_copy"))
+                shutil.copy(path, os.path.join(folder, "a_copy"))
+                others["get_dataset_from_file"] = call(ck.Dataset.get_dataset_from_file, path)
+                others["get_datasets_from_folder"] = call(ck.Dataset.get_datasets_from_folder, folder)
+                shutil.rmtree(folder, ignore_errors=True)
         finally:
             if os.path.exists(path):
                 os.remove(path)
@@ -291,6 +313,25 @@ def check_case(case, ctx):
         st, eq = call(lambda: back == d)
         if st == "ok" and eq is not True:
             ctx.count("library_eq_disagrees_with_reference")     # C17's business; cross-reported in the evidence
+        for api, (st_o, val) in others.items():
+            ctx.count("other_readers_checked")
+            if st_o == "exc":
+                ctx.violation(f"C18/{api}-raises-{type(val).__name__}", f"{api} failed on a file that from_file reads: "
+                              + exc_desc(val), sub)
+                continue
+            if api == "get_datasets_from_folder":
+                datasets = val
+                if len(datasets) != 2:
+                    ctx.violation("C18/folder-reader-wrong-count", f"{len(datasets)} datasets for 2 files", sub)
+                    continue
+                raws = [libx.raw_dataset(x) for x in datasets]
+            else:
+                raws = [libx.raw_dataset(val)]
+            for raw in raws:
+                if [typed(r) for r in raw] != [typed(r) for r in libx.raw_dataset(back)]:
+                    ctx.violation(f"C18/{api}-differs-from-from_file", f"{api} read {raw}, from_file read "
+                                  f"{libx.raw_dataset(back)}", sub, observed=raw, expected=libx.raw_dataset(back))
+                    break
         ctx.nontrivial(sub)
         ctx.sample({"ds": ds}, key="file" + str(has_empty))
     else:
